@@ -216,7 +216,7 @@ def run_config(cli, wire, root, spec, nrep):
 
 def invalid_cases(rng, base_spec):
     out = []
-    for kind in ('syntax', 'type', 'dupset', 'missing-constructor', 'mixed-packages'):
+    for kind in ('syntax', 'type', 'dupset', 'dupset-two-packages', 'missing-constructor', 'mixed-packages'):
         s = wg.random_spec(rng, 'x' + kind.replace('-', '')[:6], nmin=3, nmax=4)
         out.append((kind, s))
     return out
@@ -232,6 +232,11 @@ def break_pkg(kind, spec, root):
     elif kind == 'dupset':
         open(os.path.join(d, 'zz.go'), 'w').write('package main\n\nimport "github.com/google/wire"\n\nvar DupSet = wire.NewSet(NewApp)\n')
         open(os.path.join(d, 'zy.go'), 'w').write('package main\n\nimport "github.com/google/wire"\n\nvar DupSet = wire.NewSet(NewApp)\n')
+    elif kind == 'dupset-two-packages':
+        # two directories holding `package config`, both declaring ProviderSet; the first one is the first result
+        for sub in ('alpha/config', 'beta/config'):
+            os.makedirs(os.path.join(d, sub), exist_ok=True)
+            open(os.path.join(d, sub, 'c.go'), 'w').write('package config\n\nimport "github.com/google/wire"\n\ntype C struct{}\n\nfunc NewC() *C { return &C{} }\n\nvar ProviderSet = wire.NewSet(NewC)\n')
     elif kind == 'missing-constructor':
         open(os.path.join(d, 'zz.go'), 'w').write('package main\n\nimport "github.com/google/wire"\n\ntype Zi interface{ Z() }\ntype Zimpl struct{}\n\nfunc (z *Zimpl) Z() {}\n'
                                                    'func MakeZimpl() *Zimpl { return &Zimpl{} }\n\nvar ZProv = wire.NewSet(MakeZimpl)\n\nvar ZSet = wire.NewSet(wire.Bind(new(Zi), new(*Zimpl)))\n')
@@ -347,6 +352,8 @@ def main(prop, tier):
                             open(kp, 'w').write('package main\n\n// earlier output\n')
                             before = open(kp).read()
                         pats = ['.'] if kind != 'mixed-packages' else ['.', './other']
+                        if kind == 'dupset-two-packages':
+                            pats = ['./alpha/config', './beta/config']
                         pm = pl.run([cli, 'migrate', '-o', 'kessoku.go'] + pats, cwd=d, env=wenv(), timeout=300)
                         wrote = os.path.exists(kp) and open(kp).read() != before
                         errl = [ln for ln in pm.stderr.splitlines() if 'level=INFO' not in ln and 'level=WARN' not in ln]
